@@ -268,6 +268,13 @@ def run(tier, seed):
     try:
         ok, blog = coq_build(["props/C09.vo", "props/C01restore.vo", "props/C09rot.vo", "corr/C01corr.vo", "corr/C09corr.vo", "corr/C09rot.vo"])
         proofs_ok, pa = proof_obligations_multi(work, res, ["C09.v", "C01restore.v", "C09rot.v"], ok, blog)
+        if ok:
+            # the model's probe_next / next_idx proved equal to what the source says on this run (tools/gentie.py)
+            import gentie
+            g_ok, g_log = gentie.gen_tie(work, res)
+            if not g_ok:
+                proofs_ok = False
+                pa += "\n" + g_log
         gate = coq_gate()
         if gate:
             proofs_ok = False
